@@ -56,6 +56,16 @@ CLAIMED["C03"] = (
     "members and purity of all earlier objects are checked against the model inside Coq; sort/sample are validated as (sorted) "
     "permutation / sub-multiset. align/score/landscape rows on interleaved batches: metamorphic oracle.",
     "regenerated anchors + Coq list theorems + in-Coq history correspondence")
+CLAIMED["C12"] = (
+    "Theorems (Coq): every operation (subset by int/slice/index list/mask, filter, head, tail, concat, sort, sample) returns rows of "
+    "its inputs (position, orientation, features modelled as one row value); selection returns exactly the selected rows in order; "
+    "group_by and cutby partition the table for any key (permutation, distinct keys, constant key, completeness); cutby bin index "
+    "characterised by right-closed intervals; lengths add on concat. Tie: structural anchors regenerated from molecules/core.py; "
+    "random operation histories on real Molecules whose position, orientation and 6 feature columns (int/float/string/bool/nullable) "
+    "all encode a tag: decoded independently and compared with the model inside Coq after every step, incl. group_by/cutby groups, "
+    "rejected int indices and purity of earlier objects. Rejection of inconsistent inputs: oracle probes. cutby on null category: "
+    "known finding.",
+    "regenerated anchors + Coq list theorems + in-Coq history correspondence")
 NOT_YET = "machinery for this property is not built yet in this revision (see DESIGN.md §6 for the planned model)"
 
 def main():
